@@ -37,6 +37,16 @@ def random_units(rnd, n):
             env[nm] = gen.shuffled(rnd, gen.dataset(rnd, ids, others, rnd.choice([0, 2, 5, 9]), keyspace=rnd.choice([3, 5, 9])))
             outer = rnd.choice([op, op, 'union', 'intersect', 'setdiff', 'symdiff'])
             term = {'k': 'set', 'op': outer, 'ops': [term, gen.var(nm)] if rnd.random() < 0.6 else [gen.var(nm), term]}
+        if rnd.random() < 0.3 and all(t in ('Integer', 'Number') for _, r_, t in others if r_ == 'M'):
+            # an operand that is itself a dataset-dataset expression (its columns come out in the expression's own order)
+            def wrap(t):
+                if t.get('k') == 'var' and rnd.random() < 0.6:
+                    return {'k': 'bin', 'op': rnd.choice(['+', '-', '*']), 'l': t, 'r': gen.var(rnd.choice(names))}
+                return t
+            if term['ops'][0].get('k') == 'set' or term['ops'][-1].get('k') == 'set':
+                term = dict(term, ops=[wrap(o) for o in term['ops']])
+            else:
+                term = dict(term, ops=[wrap(o) for o in term['ops']])
         units.append({'id': 'r%d' % i, 'env': env, 'cc': True, 'term': term})
     return units
 
